@@ -51,7 +51,7 @@ func checkC06(w *World) {
 	docRule(P, "R06.3", "D", "the handlers of + - * div mod and unary minus contain no branch on operand values: the stored result is the operator applied to the operands on every non-error path (Go's float operators are IEEE 754; a special case can only be redundant or wrong).")
 	docRule(P, "R06.4", "T", "count returns len of its node-set argument and errors for any other argument type; sum adds Number() of a one-node node-set per node of its node-set argument into a float64 accumulator and errors otherwise; floor is math.Floor and ceiling is math.Ceil of Number() of the argument.")
 	docRule(P, "R06.5", "D", "no integer division or remainder with a non-constant divisor in package exec (it panics on zero).")
-	docRule(P, "R06.6", "T+D", "round: NaN and infinities are returned unchanged (guarded by math.IsNaN/IsInf on the argument); ties go toward positive infinity: the helper uses floor(x+0.5), or a tie test `x - floor(x) >= 0.5` (round up), or `ceil(x) - x > 0.5` (round down) with exactly that strictness; math.Round/RoundToEven/Trunc and integer conversions are not used.")
+	docRule(P, "R06.6", "T+D", "round: NaN and infinities are returned unchanged (guarded by math.IsNaN/IsInf on the argument); ties go toward positive infinity: the helper decides with a tie test on an exact difference, `x - floor(x) >= 0.5` (round up) or `ceil(x) - x > 0.5` (round down), with exactly that strictness; floor(x + 0.5) is rejected (the addition rounds), math.Round/RoundToEven/Trunc and integer conversions are not used.")
 
 	var nts []string
 	for nt := range arithNTs {
@@ -429,7 +429,7 @@ func (w *World) checkRound(P string, fn *ssa.Function) {
 							ky, oky := constFloat(bo.Y)
 							if (okx && kx == 0.5) || (oky && ky == 0.5) {
 								idioms++
-								w.check(P, "R06.6", "round: floor(x + 0.5) in "+g.Name(), x.Pos(), true, "ties go toward positive infinity")
+								w.check(P, "R06.6", "round: floor(x + 0.5) in "+g.Name(), x.Pos(), false, "the sum x + 0.5 is itself rounded to a double before floor sees it: round(0.49999999999999994) becomes 1 and odd integers in [2^52, 2^53) come back as n+1; the integer nearest to x must be found from floor(x) and the exact difference x - floor(x)")
 							}
 						}
 					}
